@@ -124,3 +124,28 @@ pub fn hover(args: &util::Args) {
     println!("colon: {:?} ({:?})", compiler::query::colon_colon_completions(&path, &src, line, col), t.elapsed());
     let _ = std::fs::remove_dir_all(&dir);
 }
+
+/// `gv shrink <file.gom> <text>`: minimise a program while `compile` still panics with a message
+/// containing `<text>`; prints the result
+pub fn shrink(args: &util::Args) {
+    util::quiet_panics();
+    let file = &args.rest[0];
+    let needle = args.rest.get(1).cloned().unwrap_or_default();
+    let src = std::fs::read_to_string(file).expect("read");
+    let dir = util::scratch_dir("shrink");
+    let mut pred = |cand: &str| matches!(util::compile_text(&dir, cand), Outcome::Panic(m) if m.contains(&needle));
+    if !pred(&src) {
+        println!("the input does not panic with a message containing {:?}", needle);
+        return;
+    }
+    let mut cur = src;
+    for _ in 0..4 {
+        let next = crate::crash::shrink_text(&cur, &mut pred, 4000);
+        if next.len() == cur.len() {
+            break;
+        }
+        cur = next;
+    }
+    println!("{}", cur);
+    let _ = std::fs::remove_dir_all(&dir);
+}
